@@ -78,6 +78,12 @@ func (w *World) unprovenBounds(pkgPath, rel string) ([]bceSite, error) {
 }
 
 // shapeOf renders an expression with locals as their types and the receiver as recv.
+// idx2Bound lists other spellings of tabled sites: accepted in the named
+// function only, and never handed to code that moved.
+var idx2Bound = map[string]string{
+	"MakeInstruction/<[]byte>[<int>:]": "offset runs over the operand widths whose sum sized the instruction, so it is at most the length (the tail handed to an encoding/binary writer; CODEC.3 checks the writer against the width)",
+}
+
 func (w *World) shapeOf(p pkgT, fd *ast.FuncDecl, e ast.Expr) string {
 	var recv types.Object
 	if fd != nil && fd.Recv != nil && len(fd.Recv.List) == 1 && len(fd.Recv.List[0].Names) == 1 {
@@ -421,6 +427,17 @@ func idx2Package(c *Ctx, p pkgT, inScope func(fd *ast.FuncDecl) bool) int {
 			c.ok(seq.next(key), ea.e, "in range by invariant: "+why)
 			present[funcKey(ea.fd)+"/"+shape] = true
 			continue
+		}
+		if why, ok := idx2Bound[funcKey(ea.fd)+"/"+shape]; ok {
+			c.ok(seq.next(key), ea.e, "in range by invariant: "+why)
+			continue
+		}
+		if strings.HasPrefix(shape, "parser.OpcodeOperands[") || strings.HasPrefix(shape, "parser.OpcodeNames[") || strings.HasPrefix(shape, "OpcodeOperands[") || strings.HasPrefix(shape, "OpcodeNames[") {
+			// the opcode tables, indexed by an opcode byte of a stream the compiler wrote
+			if b, ok := p.TypesInfo.TypeOf(ea.e.(*ast.IndexExpr).Index).Underlying().(*types.Basic); ok && b.Kind() == types.Uint8 {
+				c.ok(seq.next(key), ea.e, "in range by invariant: every opcode byte of a stream the compiler wrote is one of the dense opcode constants that index this table (CODEC.1)")
+				continue
+			}
 		}
 		if strings.Contains(shape, "recv.") {
 			if why, ok := idx2Table["*/"+shape]; ok {
